@@ -353,6 +353,13 @@ def evaluate(spec, rec, refs):
                 continue
             if o["st"] not in ("ok", "exc") or o["key"] is None:
                 continue
+            if o["op"] == "edit":
+                # the caller's own edit is not a library operation: never reported, but
+                # a wrong input makes everything derived from it incomparable
+                ref = refs.by_key.get(o["key"])
+                if ref is not None and ref["dg"] != o["dg"]:
+                    tainted.add(i)
+                continue
             if multi and "permute(" in o["key"]:
                 # the helper is built on the process-global RNG; under concurrent
                 # users of `random` no property demands a stable result
@@ -393,16 +400,16 @@ def vclass(v):
 # --------------------------------------------------------------------------
 TIERS = {
     "C14": {
-        "quick": dict(runs=1000, race_runs=800, hashseeds=8, pool=dict(n_corpus=20, n_random=36, n_big=3, n_bad=12), n_respell=160, n_mutate=40, wall=1500),
-        "thorough": dict(runs=10000, race_runs=12000, hashseeds=64, pool=dict(n_corpus=60, n_random=150, n_big=10, n_bad=30), n_respell=400, n_mutate=160, wall=3 * 3600, knobs=dict(max_ops=14, max_warmup=100)),
+        "quick": dict(runs=1000, race_runs=1600, hashseeds=8, pool=dict(n_corpus=20, n_random=36, n_big=3, n_bad=12), n_respell=160, n_mutate=40, wall=1500),
+        "thorough": dict(runs=10000, race_runs=16000, hashseeds=64, pool=dict(n_corpus=60, n_random=150, n_big=10, n_bad=30), n_respell=400, n_mutate=160, wall=3 * 3600, knobs=dict(max_ops=14, max_warmup=100)),
     },
     "C12": {
         "quick": dict(runs=1200, hashseeds=8, pool=dict(n_corpus=20, n_random=40, n_big=4, n_bad=0), n_respell=12, n_mutate=0, wall=1200),
-        "thorough": dict(runs=30000, hashseeds=16, pool=dict(n_corpus=80, n_random=300, n_big=20, n_bad=0), n_respell=60, n_mutate=0, wall=2 * 3600, knobs=dict(max_ops=24, max_warmup=60)),
+        "thorough": dict(runs=24000, hashseeds=16, pool=dict(n_corpus=80, n_random=300, n_big=20, n_bad=0), n_respell=60, n_mutate=0, wall=3 * 3600, knobs=dict(max_ops=24, max_warmup=60)),
     },
     "C16": {
         "quick": dict(runs=1500, hashseeds=8, pool=dict(n_corpus=20, n_random=40, n_big=4, n_bad=0), n_respell=12, n_mutate=0, wall=1200),
-        "thorough": dict(runs=30000, hashseeds=16, pool=dict(n_corpus=80, n_random=300, n_big=20, n_bad=0), n_respell=60, n_mutate=0, wall=2 * 3600, knobs=dict(max_ops=24, max_warmup=60)),
+        "thorough": dict(runs=24000, hashseeds=16, pool=dict(n_corpus=80, n_random=300, n_big=20, n_bad=0), n_respell=60, n_mutate=0, wall=3 * 3600, knobs=dict(max_ops=24, max_warmup=60)),
     },
 }
 
